@@ -68,7 +68,7 @@ func init() {
 		assumptions: []string{"sha256 second-preimage resistance"},
 	})
 	register("C04", &propDef{
-		patterns:    []string{"./embedded/store", "./embedded/tbtree"},
+		patterns:    []string{"./embedded/store", "./embedded/tbtree", "./pkg/database"},
 		run:         c04,
 		explanation: "Decides the structural clauses that keep the index equal to the committed log: nothing stored in the indexing bulk aliases the pooled transaction buffer; the tombstone of a previous mapped key is written with a writable metadata copy and its error checked; index entries carry the id of the tx they were read from, are built from per-transaction state only, and waiters are released by the tree's own logical time; non-indexable entries and foreign prefixes are skipped; an index ahead of the log is rejected; on the read side deleted/expired filters are applied before offsets and results; plus the TS-file/flush ordering shared with C03. It does NOT decide B-tree content (C10) nor key-mapper functions.",
 		assumptions: []string{"entry mappers return freshly allocated keys"},
